@@ -10,15 +10,24 @@ import (
 
 func (e *Exec) bankInit(st *State) {
 	if st.Bal == nil {
+		if st.Init != nil && st.Init.bank != nil {
+			// another fork of this chain state already named the initial ledgers
+			b := st.Init.bank
+			st.Bal, st.Sup, st.Acc, st.Meta = b[0], b[1], b[2], b[3]
+			return
+		}
 		st.Bal = e.fresh("bank.balances0", balSort)
 		st.Sup = e.fresh("bank.supply0", supSort)
 		st.Acc = e.fresh("auth.accounts0", accSort)
 		st.Meta = e.fresh("bank.denomMeta0", metaSort)
+		if st.Init != nil {
+			st.Init.bank = []*Term{st.Bal, st.Sup, st.Acc, st.Meta}
+		}
 	}
 }
 
 func sel(arr *Term, idx *Term, res Sort) *Term { return App("select", res, arr, idx) }
-func sto(arr *Term, idx, v *Term) *Term       { return App("store", arr.S, arr, idx, v) }
+func sto(arr *Term, idx, v *Term) *Term        { return App("store", arr.S, arr, idx, v) }
 
 func (e *Exec) balance(st *State, addr, denom *Term) *Term {
 	e.bankInit(st)
@@ -267,8 +276,10 @@ func init() {
 	for _, m := range []string{"BridgeCreated", "BridgeChallengerUpdated", "BridgeProposerUpdated", "BridgeBatchInfoUpdated", "BridgeMetadataUpdated"} {
 		m := m
 		models["bridgehook."+m] = func(e *Exec, a []Value) []Value {
-			e.state.Ghost["hook:"+m] = a[3]
-			e.state.Ghost["hookid:"+m] = a[2]
+			// what the hook was told is part of the state of the context it ran on (C18 compares it)
+			hst := ctxOf(e, a[1]).St
+			hst.Ghost["hook:"+m] = a[3]
+			hst.Ghost["hookid:"+m] = a[2]
 			if e.decideBool(e.fresh("hook."+m+".fails", BoolSort)) {
 				return []Value{errIface("", StrLit("bridge hook failed"))}
 			}
